@@ -12,10 +12,10 @@ echo "--- existing suite with the change:"
 cargo test --offline --lib 2>&1 | grep -E "^test result" | head -1
 cargo build --offline --features verif 2>&1 | grep -E "^error" | head -3
 echo "--- demo with the change (must fail):"
-timeout 300 cargo test --offline --test adv_demo 2>&1 | grep -E "^test result|panicked|FAILED|error\[" | head -4
+timeout 300 cargo test --offline $FEATURES --test adv_demo 2>&1 | grep -E "^test result|panicked|FAILED|error\[" | head -4
 git checkout -q -- src
 echo "--- demo without the change (must pass):"
-timeout 300 cargo test --offline --test adv_demo 2>&1 | grep -E "^test result|FAILED" | head -2
+timeout 300 cargo test --offline $FEATURES --test adv_demo 2>&1 | grep -E "^test result|FAILED" | head -2
 git apply /tmp/seeded-$$.diff
 mkdir -p "$DEST"
 cp /tmp/seeded-$$.diff "$DEST/patch.diff"; cp tests/adv_demo.rs "$DEST/adv_demo.rs" 2>/dev/null; cp adv_out/NOTES.md "$DEST/NOTES.md" 2>/dev/null
